@@ -156,6 +156,16 @@ func (fr *Frame) execSelect(ins *ssa.Select, c *blockCtx) {
 			g.oblige("unblock", fr.oname("unblock", fmt.Sprintf("also%d/select@%d", gi+1, fr.callOrd["unblock"])), c.reach, or(alts2...), "blocking select without a receive on the additional unblocking channel", false)
 		}
 	}
+	if !ins.Blocking {
+		// the default arm is taken only if no other case is ready; a receive from a closed channel is always ready,
+		// so on the default path none of the channels the select would receive from is closed
+		for _, st := range ins.States {
+			if st.Dir == types.RecvOnly {
+				ch := fr.val(st.Chan)
+				g.sc.Assume(implies(and(c.reach, eq(idx.S, "(- 1)")), not(g.getGhost(c.st, "$chclosed", ch.S).S)))
+			}
+		}
+	}
 	res := []Term{idx}
 	recvOk := g.sc.Fresh("selok", SBool)
 	res = append(res, recvOk)
